@@ -86,9 +86,22 @@ def load_file(path: Path, contracts: dict[str, Contract], helpers: dict[str, ast
             contracts[target] = c
 
 
-def bind_all(contracts: dict[str, Contract]) -> None:
-    """Check every contract against the current source."""
-    for target, c in contracts.items():
+def bind_all(contracts: dict[str, Contract]) -> dict[str, str]:
+    """Check every contract against the current source.  A contract that no longer
+    fits (function gone, parameter renamed, loop structure changed) is dropped and
+    reported; the others stay usable."""
+    errors: dict[str, str] = {}
+    for target in list(contracts):
+        try:
+            _bind_one(target, contracts[target])
+        except BindingError as e:
+            errors[target] = str(e)
+            del contracts[target]
+    return errors
+
+
+def _bind_one(target: str, c: Contract) -> None:
+    if True:
         try:
             fi = INDEX.func(target)
         except (KeyError, FileNotFoundError, OSError) as e:
